@@ -105,6 +105,7 @@ func runC09(cx *Ctx, r *Report) {
 	}
 	feeEvents := map[string][]ev3{}
 	burnEvents := map[string][]ev3{}
+	nNs := 0
 	over := cx.forEachEvent(entries, watchIntCmp, func(e *Entry, w *Walker, ev *Event) {
 		pos := ev.Pos(cx)
 		ekey := e.Module + "." + e.Name
@@ -126,6 +127,15 @@ func runC09(cx *Ctx, r *Report) {
 				r.ok("lossy-cap-comparison", ekey+"|"+strings.TrimPrefix(ev.Kind, "cmp:"), pos, "cap comparison "+a+" vs "+b+" has no truncating quotient on either side")
 			}
 			return
+		}
+		// a coin's denom is a MIN UNIT: looked up in the symbol index it names another token
+		// (symbols and min units are separate namespaces and may collide), and the owner,
+		// mintable and cap guards would then be evaluated on that other token
+		if (ev.Kind == "store.get" || ev.Kind == "store.has") && hasPrefix(ev, tokSymbol) && e.Module == "token/v1" && (e.Name == "MintToken" || e.Name == "BurnToken") {
+			if k := ev.Args[0].LooseString(); strings.HasSuffix(k, "(msg.Coin.Denom)") {
+				r.violate("denom-namespace", ekey+"|"+tokSymbol, pos, "the coin's denom (a min unit) is looked up in the SYMBOL index on chain "+ev.Fr.String()+": a token whose symbol equals another token's min unit is resolved instead, so its owner can mint the other token's coins past that token's owner, mintable flag and cap")
+			}
+			nNs++
 		}
 		facts := func() []FactT { return w.FactsAt(ev.Fr, ev.Site) }
 		switch {
@@ -324,6 +334,11 @@ func runC09(cx *Ctx, r *Report) {
 		}
 	}
 	cx.lostUpdateRule(r, []string{"token"}, 10)
+	if nNs < 2 {
+		r.toolErr("only %d symbol-index reads seen on the MintToken/BurnToken chains (≥2 confirmed: the token record is loaded by the symbol found in the min-unit index)", nNs)
+	} else {
+		r.ok("denom-namespace", "token/v1.MintToken,BurnToken", "", fmt.Sprintf("%d reads of the symbol index on the mint/burn chains, none keyed by the coin's denom itself", nNs))
+	}
 	r.requireCount("identity-unique", 6)
 	r.requireCount("owner-guard", 6)
 	r.requireCount("fee-split", 4)
